@@ -9,7 +9,7 @@
 EXTENDS Props
 CONSTANTS NRevs,        \* revision slots 0..NRevs-1 (the harness domain uses 4)
           Numberings,   \* subset of {"asc", "desc", "ties"}
-          PodVals,      \* subset of 0..4: 0 = no pod, k = pod labelled with revision t(k-1).0
+          PodVals,      \* subset of 0..8: 0 = no pod, 1..4 = healthy pod labelled t(k-1).0, 5..8 = the same but terminating
           Colls         \* collision counts recorded in the status
 VARIABLES tmpl, cur, hl, numbering, coll, squat, revs, pods, lvl
 vars == <<tmpl, cur, hl, numbering, coll, squat, revs, pods, lvl>>
@@ -28,7 +28,7 @@ SquatRev == IF squat /\ ~\E k \in PresentRevs : TmplOf(k) \o ".0" = NatSquat
             ELSE {}
 RevSeq == SetToSortSeq({MkRev(k, revs[k]) : k \in PresentRevs} \cup SquatRev, LAMBDA a, b : a.rank < b.rank)
 MkPod(o) == [new |-> FALSE, name |-> "foo-" \o ToString(o), ord |-> o, member |-> TRUE, match |-> TRUE, owner |-> "self", phase |-> "Running",
-             ready |-> TRUE, term |-> FALSE, rev |-> TmplOf(pods[o] - 1) \o ".0", identOK |-> TRUE, storOK |-> TRUE]
+             ready |-> TRUE, term |-> pods[o] > 4, rev |-> TmplOf((pods[o] - 1) % 4) \o ".0", identOK |-> TRUE, storOK |-> TRUE]
 PodSeq == SetToSortSeq({MkPod(o) : o \in {x \in 0..1 : pods[x] > 0}}, LAMBDA a, b : a.ord < b.ord)
 
 SnOf ==
@@ -38,7 +38,8 @@ SnOf ==
             status |-> [obsGen |-> 1, replicas |-> 0, ready |-> 0, current |-> 0, updated |-> 0, collisions |-> coll,
                         curRev |-> cur, updRev |-> "t2.0"], claims |-> <<>>],
    pods |-> PodSeq, revs |-> RevSeq, pvcs |-> {},
-   fresh |-> [exists |-> TRUE, sameUid |-> TRUE, deleting |-> FALSE, rvSame |-> TRUE], cacheIntact |-> TRUE]
+   fresh |-> [exists |-> TRUE, sameUid |-> TRUE, deleting |-> FALSE, rvSame |-> TRUE], cacheIntact |-> TRUE,
+   apods |-> ApiFromCache(PodSeq), apvcs |-> {}, faults |-> <<>>]
 
 Init == /\ tmpl \in {"t0", "t1", "t2", "t3"} /\ cur \in {"t0.0", "t1.0", "t2.0", "", "gone"} /\ hl \in 0..2
         /\ numbering \in Numberings /\ coll \in Colls /\ squat \in BOOLEAN
@@ -49,6 +50,7 @@ Next == /\ lvl = 0 /\ lvl' = 1 /\ revs' \in [0..(NRevs - 1) -> RevChoices]
 
 M == Sync(SnOf)
 I_C13 == C13(SnOf, M.calls, M.res)
+I_C09 == C09(SnOf, M.calls, M.res)
 I_C10 == C10(SnOf, M.calls, M.res)
 I_C12 == C12(SnOf, M.calls)
 \* per-reconcile part of C08: an unchanged template never adds a revision; the update revision carries the set's template;
